@@ -27,6 +27,12 @@ import (
 //   ctxops_writes       every assignment to / increment of the field ctxOps: (function, statement)
 //   command_sites       every call of exec.Command / exec.CommandContext: (function, callee, guard)
 //   ctx_err_sites       every call of p.ctx.Err(): (function, enclosing if-conditions)
+//   exec_shell_body     top-level statements of (*interp).execShell
+//   exec_shell_returns  every return statement of execShell (at any depth): (returned expression,
+//                       "yes" iff the return is a top-level statement returning an identifier x and an
+//                       earlier top-level statement assigns x.WaitDelay, i.e. WaitDelay is set on the path)
+//   exec_shell_makes    every exec.Command / exec.CommandContext call in execShell: (callee, what receives it)
+//   waitdelay_writes    every assignment to a field WaitDelay in package interp: (function, statement)
 func init() {
 	register(Gen{File: "DispatchLoop.v", Run: genDispatchLoop})
 }
@@ -93,6 +99,9 @@ func genDispatchLoop(repo string) (string, error) {
 	var execSites, pollSites, opsWrites [][2]string
 	var cmdSites [][3]string
 	var ctxErrSites [][2]string
+	var shellBody []string
+	var shellReturns, shellMakes, waitDelayWrites [][2]string
+	shellFound := false
 	var dispatchHeader string
 	var dispatchHead, checkBody, nowBody, ecBody, exBody, recordHead []string
 	recordLoopFound := false
@@ -143,6 +152,73 @@ func genDispatchLoop(repo string) (string, error) {
 				if !found {
 					return "", fmt.Errorf("no switch statement in the dispatch loop of interp.execute")
 				}
+			case "interp.execShell":
+				shellFound = true
+				shellBody = stmts(fd.Body.List)
+				// top-level WaitDelay assignments seen so far, by receiver identifier
+				set := map[string]bool{}
+				top := map[ast.Stmt]bool{}
+				for _, st := range fd.Body.List {
+					top[st] = true
+				}
+				for _, st := range fd.Body.List {
+					if as, ok := st.(*ast.AssignStmt); ok {
+						for _, l := range as.Lhs {
+							if se, ok := l.(*ast.SelectorExpr); ok && se.Sel.Name == "WaitDelay" {
+								if id, ok := se.X.(*ast.Ident); ok {
+									set[id.Name] = true
+								}
+							}
+						}
+					}
+					snapshot := map[string]bool{}
+					for k := range set {
+						snapshot[k] = true
+					}
+					ast.Inspect(st, func(n ast.Node) bool {
+						switch x := n.(type) {
+						case *ast.FuncLit:
+							return false
+						case *ast.ReturnStmt:
+							expr, ok := "", "no"
+							if len(x.Results) > 0 {
+								expr = render(fset, x.Results[0])
+							}
+							if top[ast.Stmt(x)] && len(x.Results) == 1 {
+								if id, isID := x.Results[0].(*ast.Ident); isID && snapshot[id.Name] {
+									ok = "yes"
+								}
+							}
+							shellReturns = append(shellReturns, [2]string{expr, ok})
+						case *ast.AssignStmt:
+							for i, r := range x.Rhs {
+								if c, isCall := r.(*ast.CallExpr); isCall {
+									if se, isSel := c.Fun.(*ast.SelectorExpr); isSel {
+										if id, isID := se.X.(*ast.Ident); isID && id.Name == "exec" && i < len(x.Lhs) {
+											shellMakes = append(shellMakes, [2]string{se.Sel.Name, render(fset, x.Lhs[i])})
+										}
+									}
+								}
+							}
+						}
+						return true
+					})
+				}
+				// exec.* calls that are not the right-hand side of an assignment (returned or passed on directly)
+				ast.Inspect(fd.Body, func(n ast.Node) bool {
+					if r, ok := n.(*ast.ReturnStmt); ok {
+						for _, e := range r.Results {
+							if c, isCall := e.(*ast.CallExpr); isCall {
+								if se, isSel := c.Fun.(*ast.SelectorExpr); isSel {
+									if id, isID := se.X.(*ast.Ident); isID && id.Name == "exec" {
+										shellMakes = append(shellMakes, [2]string{se.Sel.Name, "(returned directly)"})
+									}
+								}
+							}
+						}
+					}
+					return true
+				})
 			case "interp.execActions":
 				ast.Inspect(fd.Body, func(n ast.Node) bool {
 					fs, ok := n.(*ast.ForStmt)
@@ -238,6 +314,9 @@ func genDispatchLoop(repo string) (string, error) {
 						if se, ok := l.(*ast.SelectorExpr); ok && se.Sel.Name == "ctxOps" {
 							opsWrites = append(opsWrites, [2]string{fn, render(fset, x)})
 						}
+						if se, ok := l.(*ast.SelectorExpr); ok && se.Sel.Name == "WaitDelay" {
+							waitDelayWrites = append(waitDelayWrites, [2]string{fn, render(fset, x)})
+						}
 					}
 				case *ast.IncDecStmt:
 					if se, ok := x.X.(*ast.SelectorExpr); ok && se.Sel.Name == "ctxOps" {
@@ -259,6 +338,9 @@ func genDispatchLoop(repo string) (string, error) {
 	}
 	if !recordLoopFound {
 		return "", fmt.Errorf("the record loop (bare for calling p.nextLine) not found in interp.execActions")
+	}
+	if !shellFound {
+		return "", fmt.Errorf("func (p *interp) execShell not found in package interp")
 	}
 	if checkBody == nil || nowBody == nil {
 		return "", fmt.Errorf("checkContext / checkContextNow not found in package interp")
@@ -313,6 +395,10 @@ func genDispatchLoop(repo string) (string, error) {
 	pairs("poll_sites", pollSites)
 	pairs("ctxops_writes", opsWrites)
 	pairs("ctx_err_sites", ctxErrSites)
+	list("exec_shell_body", shellBody)
+	pairs("exec_shell_returns", shellReturns)
+	pairs("exec_shell_makes", shellMakes)
+	pairs("waitdelay_writes", waitDelayWrites)
 	sb.WriteString("Definition command_sites : list (string * string * string) :=\n  [")
 	for i, x := range cmdSites {
 		if i > 0 {
